@@ -1,1 +1,2 @@
 import CorgiSpec.Oracle
+import CorgiSpec.Index
